@@ -131,7 +131,11 @@ func VP_C17_Sketch() {
 	n, k, ns, L := vpCase("n"), vpCase("k"), vpCase("seqs"), vpCase("len")
 	var seqs [][]byte
 	for i := 0; i < ns; i++ {
-		seqs = append(seqs, vpDNA("s"+vpDigit(i), L))
+		li := L
+		if i > 0 {
+			li = vpCaseOr("len2", L) // later sequences may be shorter or longer than the first
+		}
+		seqs = append(seqs, vpDNA("s"+vpDigit(i), li))
 	}
 	want := vpBottom(n, k, seqs)
 	got := Sequences(n, k, seqs...).View()
@@ -141,7 +145,7 @@ func VP_C17_Sketch() {
 		v := append([][]byte{vpRCu(vpUpperSeq(seqs[0]))}, seqs[1:]...)
 		vpAssert(vpSameU64(Sequences(n, k, v...).View(), want), "unchanged by reverse-complementing a sequence")
 	case 2: // case flipped
-		f := make([]byte, L)
+		f := make([]byte, len(seqs[0]))
 		for i, c := range seqs[0] {
 			f[i] = c ^ 0x20
 		}
